@@ -192,6 +192,8 @@ func (s *Swarm) getConn(ctx context.Context, addr Addr) (*Conn, error) {
 	remoteAddr := c.RemoteAddr()
 	c2, exists := s.conns[remoteAddr.Key()]
 	if exists {
+		// another caller connected in the meantime: this connection is not needed
+		c.sconn.Close()
 		return c2, nil
 	}
 	s.conns[remoteAddr.Key()] = c
